@@ -36,7 +36,10 @@ def params(draw, tier):
          "normalize": draw(st.sampled_from([None, "average"])),
          "source": draw(st.sampled_from(["tissue", "tissue", "polylines"])),
          "repeat": draw(st.sampled_from([False, False, False, True])),
-         "factor": draw(st.sampled_from([0.5, 2.0, 3.0]))}
+         "factor": draw(st.sampled_from([0.5, 2.0, 3.0])),
+         # vertices moved in place after the interfaces were built (Frame.filter_edges, a manual correction): the
+         # windows are centred on the vertices where they are now (non-integrated mode)
+         "moved_after": draw(st.sampled_from([False, False, True]))}
     if p["source"] == "tissue":
         p["tissue"] = draw(gen.tissue_params(kinds=("voronoi", "moebius"), max_cells=12, min_cells=4, allow_sub=False,
                                              n_int_max=8, n_int_min=0, pose=False, labels=False))
@@ -187,6 +190,15 @@ def check_case(p, ctx):
         edges = edges + [edges[0]]
         ctx.count("class:repeated-interface")
     img, arr = make_image(p)
+    if p.get("moved_after") and not p["integrate"]:
+        seen = set()
+        for be in edges:
+            for v in be.vertices:
+                if id(v) not in seen:
+                    seen.add(id(v))
+                    v.x += 1.0 / rescale[0]
+                    v.y += 2.0 / rescale[1]
+        ctx.count("vertices-moved-after-interfaces-were-built")
     kw = dict(rescale=rescale, offset=offset)
     if p.get("omit_placement") and rescale == [1, 1] and offset == [0, 0]:
         kw = {}
